@@ -123,6 +123,21 @@ def file_line_patterns_direct(n: int, k: int) -> bool:
     return fin(got == ([n] if denotes else []))
 
 
+def file_line_patterns_three(k1: int, k2: int, k3: int) -> bool:
+    """file_line_patterns over a list of THREE `path:line` entries whose path spellings are symbolic (so that the same
+    spelling may recur non-adjacently, e.g. `mod.py:1,other.py:7,mod.py:120`): the result is exactly the line of every
+    entry whose path part denotes the file - none is dropped, whatever the order of the entries.
+    post: _
+    """
+    sps = [_spelling(k1), _spelling(k2), _spelling(k3)]
+    if any(sp.startswith("/") for sp, _d in sps):
+        return fin(True)
+    nums = [1, 7, 120]
+    got = file_line_patterns("pkg/mod.py", ["%s:%d" % (sp, n) for (sp, _d), n in zip(sps, nums)])
+    exp = [n for (sp, d), n in zip(sps, nums) if d]
+    return fin(sorted(got) == exp)
+
+
 def line_filter(sl: int, el: int, exc: List[int], inc: List[int], dup: bool) -> bool:
     """UtilsMixin.filter_by_path_includes_or_excludes (and the copy in remove_unused_imports): a single-line
     construct on an excluded line is not selected; with only includes given it is selected iff its line is
@@ -293,6 +308,7 @@ SPEC = {
     "xh": [
         Xh("line_patterns_exclude", 200, 400),
         Xh("line_patterns_include", 120, 300),
+        Xh("file_line_patterns_three", 100, 200),
         Xh("file_line_patterns_direct", 120, 300),
         Xh("line_filter", 200, 400),
         Xh("selection_respects_lines", 150, 300),
